@@ -107,7 +107,7 @@ def operand_len(x):
     return len(x[1])
 
 
-def gen_case(rng, malformed=False):
+def gen_case(rng, malformed=False, long=False):
     n = rng.randint(1, 6)
     xs = [gval(rng) for _ in range(n)]
     r = rng.random()
@@ -126,7 +126,7 @@ def gen_case(rng, malformed=False):
          "xs": [bits(x) for x in xs], "spec": spec, "init": [[bits(x), bits(e)] for x, e in zip(xs, es)],
          "edits": [], "malformed": malformed}
     ln = n
-    for _ in range(rng.randint(1, 15)):
+    for _ in range(rng.randint(1, 40 if long else 15)):
         k = rng.choice(["append", "insert", "delete", "set", "set"])
         bad_index = malformed and rng.random() < 0.2
         if k == "append":
@@ -505,11 +505,12 @@ def run_cases(ctx, cases, ref=False, with_model=True):
 
 
 def chunk(sub, n):
-    return run_cases(sub, [gen_case(sub.rng, malformed=(i % 4 == 3)) for i in range(n)])
+    return run_cases(sub, [gen_case(sub.rng, malformed=(i % 4 == 3), long=not sub.quick and i % 2 == 0)
+                           for i in range(n)])
 
 
 def correspond(ctx):
-    return H.run_chunks(ctx, chunk, ctx.n(500, 40000), chunk=250 if ctx.quick else 1250)
+    return H.run_chunks(ctx, chunk, ctx.n(500, 120000), chunk=250 if ctx.quick else 1250)
 
 
 def search_chunk(sub, n):
